@@ -28,4 +28,59 @@ pub fn unhex(s: &str) -> Option<Vec<u8>> {
     Some(out)
 }
 
+/// Canonical error token (DESIGN.md Appendix A): variant name plus payload, text fields in hex.
+pub fn err_token(e: &amiquip::Error) -> String {
+    use amiquip::Error::*;
+    match e {
+        ServerClosedConnection { code, message } => {
+            format!("ServerClosedConnection {} {}", code, hex(message.as_bytes()))
+        }
+        ServerClosedChannel { channel_id, code, message } => format!(
+            "ServerClosedChannel {} {} {}",
+            channel_id,
+            code,
+            hex(message.as_bytes())
+        ),
+        UnavailableChannelId { channel_id } => format!("UnavailableChannelId {}", channel_id),
+        ReceivedFrameWithBogusChannelId { channel_id } => {
+            format!("ReceivedFrameWithBogusChannelId {}", channel_id)
+        }
+        DuplicateConsumerTag { channel_id, consumer_tag } => format!(
+            "DuplicateConsumerTag {} {}",
+            channel_id,
+            hex(consumer_tag.as_bytes())
+        ),
+        UnknownConsumerTag { channel_id, consumer_tag } => format!(
+            "UnknownConsumerTag {} {}",
+            channel_id,
+            hex(consumer_tag.as_bytes())
+        ),
+        UnsupportedAuthMechanism { available, requested } => format!(
+            "UnsupportedAuthMechanism {} {}",
+            hex(available.as_bytes()),
+            hex(requested.as_bytes())
+        ),
+        UnsupportedLocale { available, requested } => format!(
+            "UnsupportedLocale {} {}",
+            hex(available.as_bytes()),
+            hex(requested.as_bytes())
+        ),
+        FrameMaxTooSmall { min, requested } => format!("FrameMaxTooSmall {} {}", min, requested),
+        UrlInvalidAuthMechanism { mechanism, .. } => {
+            format!("UrlInvalidAuthMechanism {}", hex(mechanism.as_bytes()))
+        }
+        UrlUnsupportedParameter { parameter, .. } => {
+            format!("UrlUnsupportedParameter {}", hex(parameter.as_bytes()))
+        }
+        other => {
+            // variant name only (payloads such as io::Error or Url are not compared)
+            let d = format!("{:?}", other);
+            d.split(|c: char| !(c.is_alphanumeric() || c == '_'))
+                .next()
+                .unwrap_or("Other")
+                .to_string()
+        }
+    }
+}
+
 pub mod engines;
